@@ -85,9 +85,14 @@ def table():
             if any(ff in "lu" and v < 0 for ff, v in zip(f, (a, s, p))): continue
             b = _B(); parts = [b.sc(f[0], a), b.sc(f[1], s), b.sc(f[2], p)]
             add("arange", b, _call("view::arange", parts, ", nm::int64"), "show1")
+    # mixed signed / unsigned arguments of a decreasing range, and start / stop above 2^24 with a small difference
+    for f, (a, s, p) in [("rur", (5, 0, -1)), ("urr", (5, 0, -2)), ("ruc", (4, 1, -1)), ("ucr", (6, 1, -2)), ("uur", (7, 2, -3)),
+                         ("rrr", (16777217, 16777219, 1)), ("uur", (16777217, 16777220, 1)), ("ccc", (16777217, 16777219, 1)), ("rur", (16777219, 16777216, -1))]:
+        b = _B(); parts = [b.sc(f[0], a), b.sc(f[1], s), b.sc(f[2], p)]
+        add("arange", b, _call("view::arange", parts, ", nm::int64"), "show1")
     for f, s in [("c", 4), ("l", 3), ("r", 5), ("u", 2)]:
         b = _B(); add("arange1", b, _call("view::arange", [b.sc(f, s)], ", nm::int64"), "show1")
-    for f, (a, s) in [("cc", (2, 5)), ("cr", (1, 4)), ("rc", (-2, 3)), ("rr", (0, 3)), ("ll", (1, 6))]:
+    for f, (a, s) in [("cc", (2, 5)), ("cr", (1, 4)), ("rc", (-2, 3)), ("rr", (0, 3)), ("ll", (1, 6)), ("rr", (16777217, 16777219)), ("uc", (16777217, 16777219))]:
         b = _B(); add("arange2", b, _call("view::arange", [b.sc(f[0], a), b.sc(f[1], s)], ", nm::int64"), "show1")
     # ---------------- linspace: num and endpoint forms (start / stop run-time double)
     for j, (fnum, fend) in enumerate([("r", "T"), ("u", "F"), ("c", "T"), ("l", "F"), ("c", "b1"), ("u", "b0"), ("r", "o"), ("l", "o"), ("c", "F"), ("u", "T")]):
